@@ -9,7 +9,7 @@ entry point `e`; `advertised a e len s0 s1` is the advertised scratch length fro
                             `s0.oop = 0 ∧ s1.oop = 0 ∧ s0.inplace ≤ s0.len ∧ s1.inplace ≤ s1.len`
   raders                  : `len = s0.len + 1`
   bluesteins n            : `len = n ∧ 1 ≤ n ∧ 2 * n - 1 ≤ s0.len`
-  radixLike               : `s0.len ∣ len ∧ 0 < s0.len`
+  radixN / radix4 / radix3 : `s0.len ∣ len ∧ 0 < s0.len`
 -/
 import RFV.Proofs.ExecLemmas
 import RFV.Props.C09
@@ -46,6 +46,22 @@ theorem small_asserts_needed' :
     ∃ c ∈ calls .mixedRadixSmall .oop 12 ⟨3, 0, 0, 0⟩ ⟨4, 13, 0, 0⟩
         (advertised .mixedRadixSmall .oop 12 ⟨3, 0, 0, 0⟩ ⟨4, 13, 0, 0⟩),
       c.scratch.len < c.need ⟨3, 0, 0, 0⟩ ⟨4, 13, 0, 0⟩ := by decide
+
+/-- the immutable-entry scratch of `RadixN`/`Radix4`/`Radix3` must be the base's full in-place requirement: with the
+out-of-place formula (`if base.inplace > len then base.inplace else 0`) in its place, the inner call of the
+immutable entry would be starved whenever `0 < base.inplace ≤ len`.  (`scratch_suffices` is proved separately for
+the three algorithms from their own generated formulas `Gen.radixN_*`, `Gen.radix4_*`, `Gen.radix3_*`, so lowering
+any one of them makes the corresponding case fail.) -/
+theorem radix_immut_needs_base_inplace :
+    ∃ len s0, Shape .radix4 len s0 s0 ∧
+      ∃ c ∈ calls .radix4 .immut len s0 s0 (if s0.inplace > len then s0.inplace else 0),
+        c.scratch.len < c.need s0 s0 :=
+  ⟨4, ⟨4, 2, 0, 0⟩, ⟨by decide, by decide⟩, by decide⟩
+
+example : ∀ c ∈ calls .radix4 .immut 16 ⟨4, 2, 0, 0⟩ ⟨4, 2, 0, 0⟩ (advertised .radix4 .immut 16 ⟨4, 2, 0, 0⟩ ⟨4, 2, 0, 0⟩),
+    c.need ⟨4, 2, 0, 0⟩ ⟨4, 2, 0, 0⟩ ≤ c.scratch.len := scratch_suffices .radix4 .immut 16 _ _ ⟨by decide, by decide⟩
+example : ∀ e, ∀ c ∈ calls .radix3 e 9 ⟨3, 5, 0, 0⟩ ⟨0, 0, 0, 0⟩ (advertised .radix3 e 9 ⟨3, 5, 0, 0⟩ ⟨0, 0, 0, 0⟩),
+    c.need ⟨3, 5, 0, 0⟩ ⟨0, 0, 0, 0⟩ ≤ c.scratch.len := fun e => scratch_suffices .radix3 e 9 _ _ ⟨by decide, by decide⟩
 
 /-- (2) the call list depends on the caller's scratch only through the advertised length: `validate_*` trims a longer
 scratch to exactly `advertised` (`&mut scratch[..required]`), so with `actual ≥ advertised` the slice the algorithm
